@@ -995,9 +995,13 @@ def run(ctx):
             ident = id(A)
             op = rng.choice(["*=", "/=", "+=", "-="])
             if op == "*=":
-                A *= 2
+                # special factors included: 0, 0.0 and 1 are where a "nothing to do" shortcut would sit
+                f_ = rng.choice([2, 2, 0, 0.0, 1, -1.0, matrix(0.0), matrix(3.0)])
+                nnz0 = len(A.V)
+                A *= f_
+                c.require(len(A.V) == nnz0, "alias:sparse:inplace-pattern", "A *= %r changed the number of stored entries %d -> %d" % (f_, nnz0, len(A.V)))
             elif op == "/=":
-                A /= 2
+                A /= rng.choice([2, 0.5, -4.0])
             elif op == "+=":
                 A += spmatrix(1.0, [0] if A.size[0] else [], [0] if A.size[0] and A.size[1] else [], A.size) if A.size[0] * A.size[1] else A
             else:
